@@ -605,17 +605,17 @@ def lemma_postings(ctx, rule):
     # postings are written only with the record's ix
     facts = ctx.facts
     ok = True
-    for b in facts.fns():
-        if b.kind == "closure" and b.id.startswith("store::trigram_index::TrigramIndex::add::"):
+    for b in RT.posting_writer_bodies(ctx):
+        if True:
             sy = ctx.sym(b)
             for bi, t in b.calls():
                 if U.callee_is(t, "Vec::push"):
                     v = S.strip_refs(sy.operand(t["args"][1]))
                     good = False
-                    if v[0] == "upvar":
-                        pb, pe = ctx.model.upvar_expr(b, v[1])
+                    if True:
+                        pb, pe = U.out_of_closure(ctx, b, v)
                         p = U.field_path(pe) if pe is not None else None
-                        good = bool(p and p[0] == "arg" and p[1] == 2 and p[2] == ["ix"])
+                        good = bool(p and p[0] == "arg" and p[1] == 2 and p[2] == ["ix"] and pb.kind != "closure")
                     if not good:
                         ok = False
                         ctx.fail(rule, "posting-value:%s" % b.id, where(b, bi, t), "a posting list receives a value other than record.ix", kind="S")
